@@ -71,6 +71,9 @@ func TestC17Batches(t *testing.T) {
 		}
 		var mu sync.Mutex
 		injected := 0
+		// the failing calls answer with a generic error or with the API status error typical for the verb
+		// (AlreadyExists for a creation whose generated name collided, TooManyRequests for a deletion)
+		rejectKind := rapid.SampledFrom([]sim.FaultKind{sim.FaultReject, sim.FaultRejectTyped}).Draw(rt, "errorClass")
 		c.Faults = func(call *sim.Call) sim.FaultKind {
 			if call.Kind != "Pod" || (call.Verb != "create" && call.Verb != "delete") {
 				return sim.FaultNone
@@ -83,7 +86,7 @@ func TestC17Batches(t *testing.T) {
 				mu.Lock()
 				injected++
 				mu.Unlock()
-				return sim.FaultReject
+				return rejectKind
 			}
 			return sim.FaultNone
 		}
